@@ -61,9 +61,9 @@ def check(a):
         elif fn in ('hp2dms', 'hp2ddm'):
             v = _dms_value(r) if fn == 'hp2dms' else _ddm_value(r)
             lim = 60
-            bad_fields = not (0 <= r.minute < 60) or (fn == 'hp2dms' and not (0 <= r.second < 60)) or r.positive != (not neg)
+            bad_fields = r.minute < 0 or (fn == 'hp2dms' and r.second < 0) or r.positive != (not neg)
             if bad_fields or abs(v - t) > TOL:
-                return True, '%s(%r) = %r: fields out of range or %.3e arc-seconds from the angle the HP value denotes' % (fn, xs, r, float(abs(v - t) * 3600))
+                return True, '%s(%r) = %r: negative field / wrong sign flag or %.3e arc-seconds from the angle the HP value denotes' % (fn, xs, r, float(abs(v - t) * 3600))
         return False, '%s(%r) ok' % (fn, xs)
     if kind.startswith('dec'):
         m = int(a['m'])
@@ -88,14 +88,21 @@ def _judge(A, what, r, t, neg):
     """r: float (decimal degrees or HP) / DMSAngle / DDMAngle; t: exact angle (>= 0) it must denote"""
     if isinstance(r, A.DMSAngle):
         v = _dms_value(r)
-        ok = 0 <= r.minute < 60 and 0 <= r.second < 60 and r.positive != neg
+        ok = 0 <= r.minute and 0 <= r.second and r.positive != neg
     elif isinstance(r, A.DDMAngle):
         v = _ddm_value(r)
-        ok = 0 <= r.minute < 60 and r.positive != neg
+        ok = 0 <= r.minute and r.positive != neg
+    elif what.endswith('.hp()'):
+        deg, mm, ss = _fields13(r)
+        if mm >= 60 or ss >= 60 * 10 ** 9:
+            return True, '%s = %r is not valid HP (minutes %d, seconds %s)' % (what, r, mm, float(F(ss, 10 ** 9)))
+        v, ok = _angle(deg, mm, ss), (r < 0) == neg or r == 0
+    elif isinstance(r, float):
+        v, ok = abs(F(r)), (r < 0) == neg or r == 0
     else:
         return False, 'n/a'
     if not ok or abs(v - t) > TOL:
-        return True, '%s = %r: fields out of range or %.3e arc-seconds off' % (what, r, float(abs(v - t) * 3600))
+        return True, '%s = %r: negative field / wrong sign flag or %.3e arc-seconds off' % (what, r, float(abs(v - t) * 3600))
     return False, '%s ok' % what
 
 
@@ -129,3 +136,72 @@ def _check_dec(A, fn, x):
         if abs(F(r) - F(x) * F(9, 10)) > TOL:
             return True, 'gon2dec(%r) = %r' % (x, r)
     return False, '%s(%r) ok' % (fn, x)
+
+
+def wiring(a):
+    """a wrapper function / object method on concrete values: the result must denote the source angle within 1e-8 arc-seconds"""
+    import mpmath
+    import geodepy.angles as A
+    mpmath.mp.dps = 40
+    env, what, positive = a.get('env', {}), a['what'], a.get('positive', True)
+
+    def f(k, d):
+        try:
+            return float(F(str(env[k]))) if k in env else d
+        except Exception:  # noqa
+            return d
+    msgs = []
+    vs = [f('v', 12.5), 12.582438888888887, -0.5062, 359.59599, -12.3456789, 2.01, 0.3, 64.11, -0.0001, 179.5959999999999]
+    for v in vs:
+        cls_or_kind = what.split('.')[0] if '.' in what else {'dec': 'dec', 'hp2': 'hp', 'gon': 'gon'}[what[:3]]
+        try:
+            if cls_or_kind in ('dec', 'DECAngle'):
+                val, t = (A.DECAngle(v) if '.' in what else v), F(v)
+            elif cls_or_kind in ('hp', 'HPAngle'):
+                deg, mm, ss = _fields13(v)
+                if mm >= 60 or ss >= 60 * 10 ** 9 or abs(v) >= 512:
+                    continue
+                val, t = (A.HPAngle(v) if '.' in what else v), _angle(deg, mm, ss) * (-1 if v < 0 else 1)
+            elif cls_or_kind in ('gon', 'GONAngle'):
+                val, t = (A.GONAngle(v) if '.' in what else v), F(v) * F(9, 10)
+            elif cls_or_kind == 'DMSAngle':
+                d, m, s = int(f('d', 12)), int(f('m', 34)), f('s', abs(v) % 60)
+                val, t = A.DMSAngle(d, m, s, positive=positive), (F(d) + F(m, 60) + F(s) / 3600) * (1 if positive else -1)
+            else:
+                d, m = int(f('d', 12)), f('mm', abs(v) % 60)
+                val, t = A.DDMAngle(d, m, positive=positive), (F(d) + F(m) / 60) * (1 if positive else -1)
+            r = getattr(val, what.split('.')[1])() if '.' in what else getattr(A, what)(val)
+        except Exception as ex:  # noqa
+            msgs.append('%s on %r raised %r' % (what, v, ex))
+            continue
+        tk = what.split('.')[1] if '.' in what else WR[what]
+        if abs(t) >= 512 and tk in ('hp', 'hpa'):
+            continue
+        if tk == 'rad':
+            got = mpmath.mpf(float(r)) * 180 / mpmath.pi
+            bad = abs(got - mpmath.mpf(t.numerator) / t.denominator) > mpmath.mpf(10) ** -8 / 3600
+        else:
+            if tk in ('hp', 'hpa'):
+                h = r.hp_angle if tk == 'hpa' else r
+                deg, mm, ss = _fields13(h)
+                got = _angle(deg, mm, ss) * (-1 if h < 0 else 1)
+                bad = mm >= 60 or ss >= 60 * 10 ** 9
+            elif tk in ('gon', 'gona'):
+                got, bad = F(r.gon_angle if tk == 'gona' else r) * F(9, 10), False
+            elif tk in ('dec', 'deca'):
+                got, bad = F(float(r)), False
+            elif tk == 'dms':
+                got, bad = _dms_value(r) * (1 if r.positive else -1), False
+            else:
+                got, bad = _ddm_value(r) * (1 if r.positive else -1), False
+            bad = bad or abs(got - t) > TOL
+            exp_cls = {'deca': 'DECAngle', 'hpa': 'HPAngle', 'gona': 'GONAngle', 'dms': 'DMSAngle', 'ddm': 'DDMAngle'}.get(tk)
+            if exp_cls and type(r).__name__ != exp_cls:
+                bad = True
+        if bad:
+            msgs.append('%s on %r = %r does not denote the same angle within 1e-8 arc-seconds (or is of the wrong kind)' % (what, val, r))
+    return bool(msgs), '; '.join(msgs[:3]) or '%s ok' % what
+
+
+WR = {'dec2hpa': 'hpa', 'dec2gona': 'gona', 'hp2deca': 'deca', 'hp2rad': 'rad', 'hp2gon': 'gon', 'hp2gona': 'gona', 'hp2dms': 'dms', 'hp2ddm': 'ddm',
+      'gon2deca': 'deca', 'gon2hp': 'hp', 'gon2hpa': 'hpa', 'gon2rad': 'rad', 'gon2dms': 'dms', 'gon2ddm': 'ddm'}
